@@ -89,6 +89,9 @@ def random_op(rng, files, weights):
         return {"op": "findings", "fmt": rng.choice(("text", "markdown")), "full": rng.random() < 0.5, "nonce": n}
     if k == "set_git":
         return {"op": "set_git", "scenario": rng.choice(("none", "not_a_repo", "ssh", "https_git", "https_plain", "detached", "no_remote", "other_host"))}
+    if k == "set_env":
+        return {"op": "set_env", "env": rng.choice(({}, {"GITHUB_REF": "refs/heads/feat/x"}, {"GITHUB_REF": "refs/tags/v1", "GITHUB_HEAD_REF": "pr-7"},
+                                                    {"GITHUB_HEAD_REF": "topic"}))}
     if k == "set_spelling":
         return {"op": "set_spelling", "mode": rng.choice(("dot", "rel_parent", "abs", "dotdot"))}
     raise KeyError(k)
@@ -96,7 +99,7 @@ def random_op(rng, files, weights):
 
 BASE_WEIGHTS = {"write": 6, "delete": 2, "rename": 3, "swap": 2, "touch": 1, "set_yml": 1, "set_gitignore": 1,
                 "set_cli": 1, "set_version": 1, "identity": 1.5, "cache_fault": 0.0, "clock": 1, "scan": 5,
-                "report": 0.7, "findings": 0.7, "set_git": 0.4, "set_spelling": 0.4}
+                "report": 0.7, "findings": 0.7, "set_git": 0.4, "set_spelling": 0.4, "set_env": 0.3}
 
 # ---------------------------------------------------------------------------
 # small-scope enumeration (thorough tier): all histories of length <= 3
